@@ -26,8 +26,15 @@ def family(cid):
     return ':'.join(p[:2]) if p[0] in ('op', 'rel', 'log') else p[0]
 
 
-def gen(tier, rng):
+def gen(tier, rng, chk=None, d=None):
     sample = 0.5 if tier == "quick" else None
+    if d is not None:
+        # the enumerated space is defined in TLA+ (spec/XGen.tla); TLC evaluates the component sets and their product's size
+        o = os.path.join(d, "xgen.out")
+        vlib.tlc("XGen", cfg="XGen.cfg", workers=1, env={"OUT": o}, heap="2g")
+        comp = vlib.read_ndjson(o)[0]
+        xlib.check_xgen(comp)
+        chk.set("XGen_space_size", comp['size'])
     nrand = 2500 if tier == "quick" else 60000
     base = vlib.seed() * 100000
     progs = xlib.template_programs(rng) + xlib.opctx_programs(rng, sample=sample) + \
@@ -119,7 +126,7 @@ def run(tier, replay=None):
     try:
         exe = vlib.build_cxx("x_case", ["x_case.cpp"])
         rng = vlib.rng(1)
-        cases = gen(tier, rng)
+        cases = gen(tier, rng, chk, d)
         res = xlib.run_cases(exe, cases, d, flags="o")
         peephole(chk, cases, res, d)
         recs = [{'id': c['id'], 'prog': c['prog'],
